@@ -13,19 +13,21 @@ namespace Httpcache.C08
 open Httpcache
 
 /-- 304 answering the stored validators (`hval`: no precondition of the client's own reached the origin in
-    their place; such a 304 is the origin's answer to the client and leaves the store alone, C06): the entry is written back under its own id with the merged header fields, the unchanged
+    their place; such a 304 is the origin's answer to the client and leaves the store alone, C06), with no-store neither on
+    the request nor on the 304 (`hns`, `hns'`: then nothing of the 304 may be written, C06): the entry is written back under its own id with the merged header fields, the unchanged
     status and body and the timestamps of the validation exchange (so its age restarts), and the
     caller gets that response marked REVALIDATED. Foreground and background validation both go
     through this function. -/
 theorem freshen_writes_back (cfg : Cfg) (reqH : Header) (key : Str) (stored : Entry) (refs : List Ref) (ri : Option Nat)
     (f : Freshness) (ccReq : Directives) (mv : Bool) (start t1 : Int) (r : Resp) (b : Bool) (tr : List Step) (res : Result)
     (h304 : r.status = 304) (hval : clientPreconditionForwarded reqH stored.resp.header = false) (hid : stored.id ≠ [])
+    (hns : ccReq.noStore = false) (hns' : (parseCC r.header).noStore = false)
     (h : Run (handleValidation cfg sGET reqH key stored refs ri f ccReq mv start (.resp r t1 b) (fun r => .ret r)) tr res) :
     ∃ ok, tr = [Step.setEntry stored.id
         { stored with requestedAt := start, receivedAt := t1,
                       resp := respWith stored.resp (updateStoredHeaders (Header.del stored.resp.header sAge) r.header) } ok] ∧
       res = .resp (respWith stored.resp (applyStatus .revalidated (updateStoredHeaders (Header.del stored.resp.header sAge) r.header))) :=
-  freshen_persists cfg reqH key stored refs ri f ccReq mv start t1 r b tr res h304 hval hid h
+  freshen_persists cfg reqH key stored refs ri f ccReq mv start t1 r b tr res h304 hval hid hns hns' h
 
 /-- the merge never takes Content-Length from the 304 -/
 theorem merge_keeps_content_length (stored new : Header) :
